@@ -23,6 +23,7 @@ var (
 	accStatusT   = reflect.TypeOf(tlb.AccountStatus(""))
 	accChangeT   = reflect.TypeOf(tlb.AccStatusChange(""))
 	skipReasonT  = reflect.TypeOf(tlb.ComputeSkipReason(""))
+	cellSliceT   = reflect.TypeOf(tlb.VmCellSlice{})
 )
 
 func enum(t reflect.Type, alts ...Alt) *Desc { return &Desc{K: KEnum, T: t, Alts: alts} }
@@ -49,6 +50,10 @@ func (c *ctx) exportedStruct(t reflect.Type) *Desc {
 
 func (c *ctx) custom(t reflect.Type) *Desc {
 	switch t {
+	case cellSliceT:
+		if cellSliceFieldsOK() {
+			return &Desc{K: KCellSlice, T: t}
+		}
 	case msgAddressT:
 		return &Desc{K: KAddr, T: t}
 	case accStatusT:
